@@ -71,6 +71,9 @@ def jobs(pid, tier, seed):
             k = "long"
         out.append({"kind": k, "seed": seed * 1000003 + i})
     out += [{"kind": "crashimg", "seed": seed * 1000 + i} for i in range(12 if tier == "quick" else 150)]
+    # work the server postpones to a later reactor turn runs one command late; afterwards everybody leaves and the
+    # store must still return to empty (histories of the C08 profile: many closes next to adds of the other side)
+    out += [{"kind": "lazy", "seed": seed * 1000003 + 800000 + i} for i in range(300 if tier == "quick" else 6000)]
     return out
 
 
@@ -137,6 +140,9 @@ def run_job(pid, job, acc):
         return
     if k == "crashimg":
         return run_crash_images(acc, job["seed"])
+    if k == "lazy":
+        from .histcheck import run_lazy
+        return run_lazy(pid, job, acc)
     s = job["seed"]
     hist = generate(s, **GEN)
     cfg = cfg_for(s)
@@ -160,6 +166,11 @@ def run_job(pid, job, acc):
 
 
 def replay(pid, rep):
+    if rep.get("kind") == "lazy":
+        acc = Acc(pid)
+        from .histcheck import run_lazy
+        run_lazy(pid, rep["job"], acc)
+        return acc
     case = rep.get("case", "")
     if rep.get("kind") == "crashimg":
         acc = Acc(pid)
